@@ -31,16 +31,21 @@ pub uninterp spec fn expects_value(u: &UD) -> bool;
     requires statuses(old(u)).len() > 0 ensures r == statuses(old(u)).last(), statuses(final(u)) == statuses(old(u)).drop_last() { unimplemented!() }
 #[verifier::external_body] pub fn mark_should_return_as_completed(u: &mut UD)
     requires statuses(old(u)).len() > 0 ensures statuses(final(u)) == statuses(old(u)).update(statuses(old(u)).len() - 1, did(statuses(old(u)).last())) { unimplemented!() }
+// C09 (one parser scope per run-time frame): the body of an `if` / `else` / `while` is parsed with exactly ONE more scope open than the
+// statement itself -- `break` / `continue` in it count the open scopes (scopes_since_loop) to know how many frames to unwind
+pub uninterp spec fn base_depth() -> int;
+// AssocFileData::get_return_type: the innermost open scope's status
+#[verifier::external_body] pub fn peek_scope(u: &UD) -> (r: ScopeReturnStatus) requires statuses(u).len() > 0 ensures r == statuses(u).last() { unimplemented!() }
 // sub-parsers of blocks: every path through the block reaches a `return` (uninterpreted) <=> the innermost open scope is marked
 pub uninterp spec fn block_returns(n: Node) -> bool;
 #[verifier::external_body] pub struct BlockV { x: usize }
 #[verifier::external_body] pub struct ElseV { x: usize }
 #[verifier::external_body] pub fn parse_block(n: Node, u: &mut UD) -> (r: Result<BlockV, VErr>)
-    requires statuses(old(u)).len() > 0
+    requires statuses(old(u)).len() > 0, statuses(old(u)).len() == base_depth() + 1
     ensures statuses(final(u)) == (if block_returns(n) { statuses(old(u)).update(statuses(old(u)).len() - 1, did(statuses(old(u)).last())) } else { statuses(old(u)) })
 { unimplemented!() }
 #[verifier::external_body] pub fn parse_else(n: Node, u: &mut UD) -> (r: Result<ElseV, VErr>)
-    requires statuses(old(u)).len() > 0
+    requires statuses(old(u)).len() > 0, statuses(old(u)).len() == base_depth() + 1
     ensures statuses(final(u)) == (if block_returns(n) { statuses(old(u)).update(statuses(old(u)).len() - 1, did(statuses(old(u)).last())) } else { statuses(old(u)) })
 { unimplemented!() }
 #[verifier::external_body] pub fn executing_class(u: &UD) -> (r: Option<&ClassType>) { unimplemented!() }
@@ -62,6 +67,7 @@ COMMON = parser_idioms() + [
     Rule("R6", "input . user_data ( ) . push_while_loop ( $s )", "push_scope ( ud , $s )", why="scope stack of the parser as explicit state (R10)"),
     Rule("R6", "input . user_data ( ) . push_if_typed ( $s )", "push_scope ( ud , $s )", why="scope stack of the parser as explicit state (R10)"),
     Rule("R6", "input . user_data ( ) . push_else_typed ( $$s )", "push_scope ( ud , $$s )", why="scope stack of the parser as explicit state (R10)"),
+    Rule("R6", "input . user_data ( ) . get_return_type ( ) . clone ( )", "peek_scope ( ud )", why="scope stack of the parser as explicit state (R10)"),
     Rule("R6", "input . user_data ( ) . mark_should_return_as_completed ( )", "mark_should_return_as_completed ( ud )", why="scope stack of the parser as explicit state (R10)"),
     Rule("R6", "Self :: value ( $n ) ?", "parse_value ( $n ) ?", why="sub-parser abstract"),
     Rule("R6", ". for_type ( & TypecheckFlags :: use_class ( input . user_data ( ) . get_type_of_executing_class ( ) , ) ) . to_err_vec ( ) ?", ". verif_for_type ( the_class_of ( & input ) ) ?", why="type query abstract; error vector wrapper dropped"),
@@ -109,7 +115,7 @@ impl ScopeReturnStatus {{
 
 //@ OBL C03.while.condition
 pub fn while_loop(input: Node, ud: &mut UD) -> (r: Result<WhileLoop, VErr>)
-    requires node_children(&input).len() >= 2, statuses(old(ud)).len() > 0
+    requires node_children(&input).len() >= 2, statuses(old(ud)).len() > 0, statuses(old(ud)).len() == base_depth()
     ensures
         // accepted only with a condition that has a type and that type is boolean
         r is Ok ==> type_of(&r->Ok_0.condition, the_class(&input)) is Some && spec_is_boolean(&type_of(&r->Ok_0.condition, the_class(&input))->Some_0),
@@ -121,7 +127,7 @@ pub fn while_loop(input: Node, ud: &mut UD) -> (r: Result<WhileLoop, VErr>)
 
 //@ OBL C03.if.condition
 pub fn if_statement(input: Node, ud: &mut UD) -> (r: Result<IfStatement, VErr>)
-    requires node_children(&input).len() >= 2, statuses(old(ud)).len() > 0
+    requires node_children(&input).len() >= 2, statuses(old(ud)).len() > 0, statuses(old(ud)).len() == base_depth()
     ensures
         r is Ok ==> type_of(&r->Ok_0.value, the_class(&input)) is Some && spec_is_boolean(&type_of(&r->Ok_0.value, the_class(&input))->Some_0),
         // C02 (no missing return value): the enclosing scope is marked "returns on every path" only if the if-branch returns on every
@@ -148,14 +154,14 @@ fn main() {{}}
 """
     obls = [
         Obl("C02.returns.all_branches_return", ["C02"], fn="ScopeReturnStatus::all_branches_return", desc="all_branches_return: true exactly for Did"),
-        Obl("C03.while.condition", ["C03", "C02"], fn="Parser::while_loop", desc="Parser::while_loop: accepted only if the condition's type is boolean; never marks the enclosing scope as returning"),
-        Obl("C03.if.condition", ["C03", "C02"], fn="Parser::if_statement", desc="Parser::if_statement: accepted only if the condition's type is boolean; the enclosing scope is marked as returning on every path only if the if-branch and an else-branch both do"),
+        Obl("C03.while.condition", ["C03", "C09", "C01", "C02"], fn="Parser::while_loop", desc="Parser::while_loop: accepted only if the condition's type is boolean; never marks the enclosing scope as returning"),
+        Obl("C03.if.condition", ["C03", "C02", "C09", "C01"], fn="Parser::if_statement", desc="Parser::if_statement: accepted only if the condition's type is boolean; the enclosing scope is marked as returning on every path only if the if-branch and an else-branch both do"),
         Obl("C03.assert.condition", ["C03"], fn="Parser::assertion", desc="Parser::assertion: accepted only if the asserted value's type is boolean"),
     ]
     return gen, obls, log
 
 
-UNITS = [VUnit("c03_conditions", ["C03", "C02"], "if / while / assert: boolean condition enforced; return-path marking of if/else", build)]
+UNITS = [VUnit("c03_conditions", ["C03", "C02", "C09", "C01"], "if / while / assert: boolean condition enforced; return-path marking of if/else", build)]
 UNITS[0].assumes = ["pest API and sub-parsers abstract (any parse tree); child counts are the grammar's productions (preconditions)",
                     "the parser's scope stack (input.user_data()) is an explicit `&mut` state of return statuses; ScopeHandle::consume pops the innermost scope (LIFO discipline assumed)",
                     "a block / else part marks the innermost open scope exactly when every path through it returns (contract of the abstract sub-parsers, from reading Parser::return_statement)",
